@@ -889,7 +889,7 @@ def deleg_rule(r, crate):
 
 def run(ctx):
     from . import c02
-    ctx.adopt(c02.run, {"R02-FWD": "R15-FWD", "R02-RULE": "R15-RULE", "R02-LOOKAHEAD": "R15-LOOKAHEAD", "R02-STORE": "R15-STORE", "R02-KIND": "R15-KIND"})
+    ctx.adopt(c02.run, {"R02-FWD": "R15-FWD", "R02-RULE": "R15-RULE", "R02-LOOKAHEAD": "R15-LOOKAHEAD", "R02-STORE": "R15-STORE", "R02-KIND": "R15-KIND", "R02-TWIN": "R15-TWIN"})
     fs = facts.load("core")
     crate = fs["pest_typed"]
     ctx.analysed = {"crates": ["pest_typed", "fx_macros"], "functions": [IT + x for x in (
